@@ -172,7 +172,8 @@ class ASYNC:
                         return False
                     uid, callback = self._async.popleft()
 
-            # Only generators should be put back (they may not be exhausted)
-            if inspect.isgenerator(callback):
-                self._async.appendleft((uid, callback))
+            # What is in hand has not run to completion: a generator with steps left, or the task
+            # popped when the previous one finished on the last step of the budget, which has not
+            # been started at all (a coroutine dropped here was never run and never answered)
+            self._async.appendleft((uid, callback))
             return True
